@@ -41,15 +41,19 @@ def gen_p10(types, emb):
 
 MC_W = {"module": "MC_Weighted", "cfg": "MC_Weighted.cfg", "overrides": {"MaxLen": ("2", "2")}}
 MC_W1 = {"module": "MC_Weighted", "cfg": "MC_Weighted.cfg", "overrides": {"MaxLen": ("3", "4"), "Slots": "{1}"}}
+MC_WW = {"module": "MC_Weighted", "cfg": "MC_Weighted.cfg", "overrides": {"MaxLen": ("2", "2"), "Weights": "MCWeightsWide"}}
 MC_C = {"module": "MC_Covariance", "cfg": "MC_Covariance.cfg", "overrides": {"MaxLen": ("2", "2")}}
 MC_C1 = {"module": "MC_Covariance", "cfg": "MC_Covariance.cfg", "overrides": {"MaxLen": ("3", "4"), "Slots": "{1}"}}
 WE = "E0:W0,E1:W1,E2:W2,E3:W0,E4:W1,E5:W2"
 CE = "E0:E0,E3:E5,E1:E2,E4:E0,E5:E3"
 
 
-def gen_pair(fam, mode, emb, types=None, maxlen=None, depth=None, slots=None):
-    """fam: Weighted | Covariance; mode: seq | tree | hist"""
+def gen_pair(fam, mode, emb, types=None, maxlen=None, depth=None, slots=None, wide=False):
+    """fam: Weighted | Covariance; mode: seq | tree | hist; wide: weights {0, 1, 4096}"""
     ov = {}
+    if wide:
+        ov["Values"] = "GenValuesNarrow"
+        ov["Weights"] = "GenWeightsWide"
     if maxlen:
         ov["MaxLen"] = maxlen
     if depth:
@@ -181,7 +185,7 @@ PROPS = {
     "C11": {
         "title": "the empty estimator is an exact identity of merge; lengths add exactly",
         "mc": [MC_HM, MC_MM, MC_W, MC_C, MC_MERGE],
-        "replay": [gen_h("hist", 2, depth=("3", "4")), gen_h("hist", 3), gen_mm("hist", depth=("3", "4")), gen_pair("Weighted", "hist", "E0:W0,E5:W2", depth=("3", "4")), gen_pair("Covariance", "hist", "E0:E0,E3:E5", depth=("3", "4")), gen_hist(ALLM, "E0,E3,E5"), gen_tree(ALLM, "E0")],
+        "replay": [gen_pair("Covariance", "tree", "E10:E10,E5:E10,E0:E0", maxlen=("3", "4")), gen_pair("Weighted", "tree", "E10:W1,E0:W0", maxlen=("3", "4")), gen_h("hist", 2, depth=("3", "4")), gen_h("hist", 3), gen_mm("hist", depth=("3", "4")), gen_pair("Weighted", "hist", "E0:W0,E5:W2,E10:W1", depth=("3", "4")), gen_pair("Covariance", "hist", "E0:E0,E3:E5,E10:E10,E5:E10", depth=("3", "4")), gen_hist(ALLM, "E0,E3,E5,E10"), gen_tree(ALLM, "E0")],
         "rule": "every add/merge/clone/fresh/checkpoint history to the depth bound over two slots; at every merge the "
                 "destination's and source's full accessor vectors are compared bit for bit before/after",
         "bounds": {"quick": "depth <= 4", "thorough": "depth <= 5"},
@@ -190,8 +194,8 @@ PROPS = {
     "C16": {
         "title": "empty, one-observation and constant samples follow the documented contract",
         "mc": [MC_W1, MC_C1, MC_SEQ, MC_MERGE],
-        "replay": [gen_q("small", "E0"), gen_mm("hist", depth=("3", "3")), gen_pair("Weighted", "seq", "E0:W0,E5:W2", maxlen=("4", "5")), gen_pair("Covariance", "seq", "E0:E0,E3:E5", maxlen=("4", "5")), gen_seq(ALLM, E05), gen_hist(ALLM, "E0")],
-        "direct": [long_job("Mean,Variance,Skewness,Kurtosis,Moments4,M6,M10", E05, max_n="10000")],
+        "replay": [gen_q("small", "E0"), gen_mm("hist", depth=("3", "3")), gen_pair("Weighted", "seq", "E0:W0,E5:W2,E10:W0,E10:W1", maxlen=("4", "5")), gen_pair("Covariance", "seq", "E0:E0,E3:E5,E10:E10", maxlen=("4", "5")), gen_seq(ALLM, E05 + ",E10"), gen_hist(ALLM, "E0")],
+        "direct": [long_job("Mean,Variance,Skewness,Kurtosis,Moments4,M6,M10", E05 + ",E10", max_n="10000")],
         "rule": "every accessor of every type at n = 0..4 and on every constant sequence in the enumerated set, sentinel class "
                 "or exact value required",
         "bounds": {"quick": "L <= 5", "thorough": "L <= 7"},
@@ -201,7 +205,7 @@ PROPS = {
         "title": "variances are never negative and means stay within the data range",
         "mc": [MC_HM, MC_W, MC_C, MC_SEQ, MC_MERGE],
         "replay": [gen_h("hist", 2, depth=("3", "4")), gen_h("hist", 3), gen_pair("Weighted", "tree", "E0:W0,E6:W1,E7:W2,E8:W0,E9:W1", maxlen=("3", "4")), gen_pair("Covariance", "tree", "E6:E7,E8:E9,E9:E6", maxlen=("3", "4")), gen_seq(ALLM, E09), gen_tree(ALLM, "E0,E4,E6,E7,E8,E9"), gen_hist(ALLM, "E6,E7,E8,E9")],
-        "direct": [long_job("Mean,Variance,Skewness,Kurtosis,Moments4,M6,M10", "E0,E6,E7,E8,E9")],
+        "direct": [long_job("Mean,Variance,Skewness,Kurtosis,Moments4,M6,M10", "E0,E4,E6,E7,E8,E9,E10")],
         "apalache": [{"module": "Ind_Variance", "skip": (True, False)}],
         "rule": "all behaviours of C01/C02 replayed under embeddings without any conditioning bound (one-ulp spreads at 2^52, "
                 "denormals, 1e149, offsets 1e15 spreads); sign and range conditions on every observation",
@@ -212,6 +216,7 @@ PROPS = {
         "title": "a serde round trip at any point is invisible",
         "mc": [MC_MERGE],
         "replay": [gen_h("hist", 2, depth=("3", "4")), gen_h("hist", 1), gen_q("big", "E0,E5", maxlen=("7", "8")), gen_q("small", "E0"), gen_mm("hist", depth=("3", "4")), gen_pair("Weighted", "hist", "E0:W0,E5:W2", depth=("3", "4")), gen_pair("Covariance", "hist", "E0:E0,E3:E5", depth=("3", "4")), gen_hist(ALLM, "E0,E3,E5", depth=("5", "6"), slots=("{1}", "{1, 2}")), gen_hist(ALLM, "E0,E5")],
+        "trace": [TR_Q],
         "rule": "every history with checkpoints at every position; two real executions (with / without the JSON round trip) "
                 "compared bit for bit on every accessor",
         "bounds": {"quick": "depth <= 5 one slot, depth <= 4 two slots", "thorough": "depth <= 6 / 5"},
@@ -219,13 +224,17 @@ PROPS = {
     },
     "C08": {
         "title": "weighted mean and its error equal the exact weighted statistics",
-        "mc": [MC_W, MC_W1],
+        "mc": [MC_W, MC_W1, MC_WW],
         "replay": [gen_pair("Weighted", "seq", WE, maxlen=("4", "5")),
                    gen_pair("Weighted", "tree", "E0:W0,E3:W1,E5:W2", maxlen=("3", "4")),
-                   gen_pair("Weighted", "hist", "E0:W0,E5:W2", depth=("3", "4"))],
+                   gen_pair("Weighted", "hist", "E0:W0,E5:W2", depth=("3", "4")),
+                   gen_pair("Weighted", "seq", "E0:W0,E3:W1", maxlen=("5", "6"), wide=True),
+                   gen_pair("Weighted", "tree", "E0:W0,E5:W2", maxlen=("4", "5"), wide=True),
+                   gen_pair("Weighted", "hist", "E0:W0", maxlen="3", depth=("4", "5"), wide=True)],
         "rule": "every sequence of (value, weight) pairs over {-1,0,2} x {0,1,3} up to the length bound (zero weights at every "
                 "position, first included), every chunking into <= 3 chunks and merge tree, arbitrary histories; "
-                "WeightedMean and WeightedMeanWithError; value embeddings x weight scales 2^-19, 1, 2^18",
+                "WeightedMean and WeightedMeanWithError; value embeddings x weight scales 2^-19, 1, 2^18; the same again over "
+                "{-1,2} x {0,1,4096} (chunks whose total weights differ by more than three orders of magnitude)",
         "bounds": {"quick": "seq L <= 4; tree L <= 3, K <= 3; hist depth <= 3", "thorough": "seq L <= 5; tree L <= 4; hist depth <= 4"},
         "assumptions": ["as C01"],
     },
